@@ -316,6 +316,7 @@ func c12OpGC(ttl uint64) *xt.T { return xt.N(xt.LI(4), xt.L(ttl)) }
 // c12EnvT: the optional 4th component of a case: process time zone code and transaction ages (minutes)
 type c12EnvT struct {
 	tz   uint64            // 0 = leave alone, else UTC offset in minutes + 1000
+	tzB  uint64            // zone while the repository is built (transactions opened); 0 = same as tz
 	ages map[uint64]uint64 // transaction group -> age
 }
 
@@ -361,7 +362,11 @@ func (g *c12Genr) addEnv(tag string, mode int, st *c12State, env *c12EnvT, ops .
 		for _, gr := range c12SortU64(gs) {
 			at.Add(xt.N(xt.L(gr), xt.L(env.ages[gr])))
 		}
-		c.Add(xt.N(xt.L(env.tz), at))
+		e := xt.N(xt.L(env.tz), at)
+		if env.tzB != 0 {
+			e.Add(xt.L(env.tzB))
+		}
+		c.Add(e)
 	}
 	g.cases = append(g.cases, Case{Tag: tag, Nontrivial: len(ncom) >= 3 && total > 0, C: c})
 }
@@ -1056,6 +1061,28 @@ func c12GCZones(g *c12Genr) {
 				}
 				st.refs = append(st.refs, c12Ref{0, uint64(ctx.Pick(4)), tip})
 				env := &c12EnvT{tz: uint64(1000 + off), ages: map[uint64]uint64{}}
+				// the transactions may have been opened by a process in another zone than the one gc runs in:
+				// one hour apart (what a DST change does to one machine), half-hour zones, the far side of the globe
+				if rep%2 == 1 || ctx.Pick(3) == 0 {
+					builds := []int{off + 60, off - 60, 330, -210, 345, -570, off + 720, off - 720, 0, 840, -720}
+					b := builds[ctx.Pick(len(builds))]
+					for b > 840 {
+						b -= 1440
+					}
+					for b < -720 {
+						b += 1440
+					}
+					if b != off {
+						env.tzB = uint64(1000 + b)
+						ctx.Count("gen_gczone_build_zone_differs")
+						if b-off == 60 || off-b == 60 {
+							ctx.Count("gen_gczone_build_zone_one_hour_apart")
+						}
+						if b%60 != 0 {
+							ctx.Count("gen_gczone_build_zone_half_hour")
+						}
+					}
+				}
 				// ages well away from the TTL (the clock moves by milliseconds between build and gc)
 				ageChoices := []uint64{0, 1, ttl / 2, ttl - 20, ttl + 20, ttl + 45, 2 * ttl, ttl + 900}
 				for grp := uint64(0); grp < 6; grp++ {
